@@ -310,3 +310,49 @@ Proof.
   intros Ha Hwf Hin Hbad H. apply (validate_vec_iff accs ls form k Ha Hwf) in H as [_ H].
   rewrite Forall_forall in H. exact (Hbad (H a Hin)).
 Qed.
+
+(* ---------------- derived sets with several fields ---------------- *)
+Lemma validate_fields_iff fs :
+  Forall (fun '(a, ls) => acct_ok a /\ Forall layer_wf ls) fs ->
+  (validate_fields fs = Ok tt <-> Forall (fun '(a, ls) => Forall (layer_ok a) ls) fs).
+Proof.
+  induction fs as [|[a ls] r IH]; intros Hwf; cbn [validate_fields]; [split; auto|].
+  inversion Hwf as [|? ? Hf Hr]; subst. cbn beta iota in Hf. destruct Hf as [[Hk Ho] Hl]. specialize (IH Hr).
+  pose proof (validate_layers_iff a ls Hk Ho Hl) as Hc.
+  destruct (validate_layers_no_panic a ls) as [H|[c H]]; rewrite H; cbn [obind].
+  - split; intros H0; [constructor; [now apply Hc|now apply IH]|inversion H0; subst; now apply IH].
+  - split; intros H0; [discriminate|]. inversion H0 as [|? ? H1 H2]; subst. apply Hc in H1. congruence.
+Qed.
+
+(* the error of a rejected set is the error of the FIRST field (declaration order) whose account fails its own checks *)
+Lemma validate_fields_first_error fs e :
+  validate_fields fs = Err e ->
+  exists pre a ls post,
+    fs = pre ++ (a, ls) :: post /\ Forall (fun '(a', ls') => validate_layers a' ls' = Ok tt) pre /\ validate_layers a ls = Err e.
+Proof.
+  induction fs as [|[a ls] r IH]; cbn [validate_fields]; [discriminate|].
+  destruct (validate_layers a ls) as [[]|c| |] eqn:E; cbn [obind]; intros H; try discriminate.
+  - destruct (IH H) as (pre & a1 & ls1 & post & -> & Hpre & H1).
+    exists ((a, ls) :: pre), a1, ls1, post. repeat split; auto.
+  - injection H as ->. exists [], a, ls, r. repeat split; auto.
+Qed.
+
+Lemma validate_fields_first_error_conv pre a ls post e :
+  Forall (fun '(a', ls') => validate_layers a' ls' = Ok tt) pre -> validate_layers a ls = Err e ->
+  validate_fields (pre ++ (a, ls) :: post) = Err e.
+Proof.
+  induction pre as [|[p pl] pre IH]; cbn [validate_fields app]; intros H1 H2; [now rewrite H2|].
+  inversion H1 as [|? ? Hp Hr]; subst. rewrite Hp. cbn [obind]. now apply IH.
+Qed.
+
+(* a check stays with the field it is written on: when field i pins the address k and the account given for field i has
+   another key, the set is rejected - whatever the accounts of the other fields are (one of them may well have the key k) *)
+Lemma validate_fields_check_stays_with_its_field fs i a ls k :
+  Forall (fun '(a, ls) => acct_ok a /\ Forall layer_wf ls) fs ->
+  nth_error fs i = Some (a, ls) -> In (LAddress k) ls -> a_key a <> k ->
+  validate_fields fs <> Ok tt.
+Proof.
+  intros Hwf Hn Hin Hne H. apply (validate_fields_iff fs Hwf) in H.
+  rewrite Forall_forall in H. specialize (H (a, ls) (nth_error_In _ _ Hn)). cbn beta iota in H.
+  rewrite Forall_forall in H. exact (Hne (H _ Hin)).
+Qed.
